@@ -131,9 +131,28 @@ def _simulate(c):
         return None
 
 
+_REFUSED = ["R{R=25:stale}X", "(RC", "[RC", "R{R=1,R=2}C", None, "R{R=5:lbl}C{C=1e-6}(", "[R(C[LR", "Tlm{X_1=RC,X_1=R}", "RC)", None, "R{R=2/3/1}", "(R{R=7}Q{n=2})"]
+
 def check_tree(tree, rng, decimals_list, variants, st, probe=False):
     """Returns list of violations for one intended tree."""
-    from pyimpspec import parse_cdc
+    from pyimpspec import parse_cdc as _real_parse_cdc
+
+    calls = [0]
+    hostile_every = 1 if G.count_elements(tree) == 0 else 3
+
+    def parse_cdc(text):
+        """history clause: a code means the same circuit whatever the parser was asked before - every n-th valid parse is
+        preceded by a call the parser must refuse part-way (after it has already consumed elements / brackets)"""
+        calls[0] += 1
+        if not probe and calls[0] % hostile_every == 0:
+            junk = _REFUSED[(calls[0] // hostile_every) % len(_REFUSED)]
+            junk = junk if junk is not None else text[: max(1, (2 * len(text)) // 3)] + "("
+            try:
+                _real_parse_cdc(junk)
+                st["hostile_parse_accepted"] = st.get("hostile_parse_accepted", 0) + 1
+            except Exception:
+                st["refused_parse_before_valid_parse"] = st.get("refused_parse_before_valid_parse", 0) + 1
+        return _real_parse_cdc(text)
 
     viol = []
     fkey = _finding_key(tree) if probe else None
@@ -355,7 +374,7 @@ def run_case(case):
 def finalize(agg):
     inc = []
     s = agg["stats"]
-    for need in ("roundtrips", "variants", "z_compared"):
+    for need in ("roundtrips", "variants", "z_compared", "refused_parse_before_valid_parse"):
         if s.get(need, 0) == 0:
             inc.append(f"deciding comparison '{need}' never ran")
     return {"viol": [], "inconclusive": inc}
